@@ -1,10 +1,17 @@
 package reconciling
 
-import "github.com/jotaen/klog/klog"
+import (
+	"errors"
+	"github.com/jotaen/klog/klog"
+	"strings"
+)
 
 // AppendEntry adds a new entry to the end of the record.
 // `newEntry` must include the entry value at the beginning of its first line.
 func (r *Reconciler) AppendEntry(newEntry klog.EntrySummary) error {
+	if len(newEntry) > 0 && (strings.HasPrefix(newEntry[0], " ") || strings.HasPrefix(newEntry[0], "\t")) {
+		return errors.New("The entry must start with a time value")
+	}
 	r.insert(r.lastLinePointer, toMultilineEntryTexts("", newEntry))
 	return nil
 }
